@@ -1,7 +1,7 @@
 """C11 - evaluator lifecycle: recompile is atomic, repeatable and instance-local."""
 from hypothesis import strategies as st
 
-from .. import runner, sut
+from .. import common, runner, sut
 from .. import model as M
 
 ID = "C11"
@@ -164,13 +164,13 @@ def histories(draw):
         elif k == "new_invalid":
             ops.append(["new_invalid", draw(st.integers(0, len(INVALID) - 1))])
         elif k == "recompile":
-            ops.append(["recompile", e, draw(st.integers(0, len(VALID) - 1))])
+            ops.append(["recompile", e, draw(st.integers(0, len(VALID) - 1)), draw(st.integers(0, 2)) == 0])
         elif k == "recompile_same":
             ops.append(["recompile_same", e])
         elif k == "copy":
             ops.append(["copy", e, draw(st.integers(0, 1))])
         elif k == "recompile_invalid":
-            ops.append(["recompile_invalid", e, draw(st.integers(0, len(INVALID) - 1))])
+            ops.append(["recompile_invalid", e, draw(st.integers(0, len(INVALID) - 1)), draw(st.integers(0, 2)) == 0])
         elif k == "recompile_maybe":
             ops.append(["recompile_maybe", e, draw(st.integers(0, len(MAYBE) - 1))])
         elif k == "repeat_invalid":
@@ -238,7 +238,12 @@ def judge(case):
                 nt = True
             if kind == "recompile":
                 try:
-                    evs[i].recompile(VALID[op[2]])
+                    if len(op) > 3 and op[3]:
+                        # as a poller does that renders its text anew on every tick: the new text object sits where the old one was
+                        common.recycled_recompile(evs[i], _text_of(model[i]), VALID[op[2]])
+                        tags.add("recompile-with-recycled-object-id")
+                    else:
+                        evs[i].recompile(VALID[op[2]])
                     model[i] = op[2]
                 except Exception as e:
                     viol.append("step %d: recompile with a valid text raised %s: %s" % (step, type(e).__name__, e))
@@ -266,7 +271,10 @@ def judge(case):
                     break
             elif kind == "recompile_invalid":
                 try:
-                    evs[i].recompile(INVALID[op[2]])
+                    if len(op) > 3 and op[3]:
+                        common.recycled_recompile(evs[i], _text_of(model[i]), INVALID[op[2]])
+                    else:
+                        evs[i].recompile(INVALID[op[2]])
                     viol.append("step %d: recompile of evaluator #%d with invalid text %r returned without raising (history so far: %r)"
                                 % (step, i, INVALID[op[2]], case["ops"][:step + 1]))
                     break
@@ -369,7 +377,7 @@ def judge_neighbours(case):
         live = ra[1]
         before = [_canon(sut.call(live, e)) for e in envs]
         try:
-            live.recompile(tb)
+            common.recycled_recompile(live, ta, tb)
         except Exception as e:
             viol.append("recompile raised %s: %s | held %r | new %r" % (type(e).__name__, e, ta, tb))
             continue
@@ -423,7 +431,7 @@ def judge_neighbours(case):
             continue
         # and back again (the old text must not be mistaken for the current one either)
         try:
-            live.recompile(ta)
+            common.recycled_recompile(live, tb, ta)
         except Exception as e:
             viol.append("recompile back raised %s: %s" % (type(e).__name__, e))
             continue
@@ -453,6 +461,13 @@ def more_fixed():
     for x, y in ((a, b), (b, a), (c, d), (d, c)):
         yield {"ops": [["new", x], ["call", 0, 0], ["recompile", 0, y], ["call", 0, 1], ["recompile", 0, x], ["recompile", 0, y], ["call", 0, 2]]}
         yield {"ops": [["new", x], ["new", y], ["call", 1, 0], ["call", 0, 0], ["recompile", 1, x], ["recompile", 0, y]], "probe_only_at_end": True}
+    # texts handed over as temporaries whose object id is recycled (same size, the old one collected): valid -> valid, valid ->
+    # invalid, back and forth
+    ws1, ws2 = _idx('def ws { salt: "s 1"'), _idx('def ws { salt: "s  1"')
+    u1, u2 = _idx('def url { salt: "https://exp.example/a"'), _idx('def url { salt: "https://exp.example/b"')
+    yield {"ops": [["new", ws1], ["recompile", 0, ws2, True], ["call", 0, 0], ["recompile", 0, ws1, True], ["call", 0, 1], ["recompile", 0, u1, True],
+                   ["recompile", 0, u2, True], ["call", 0, 2], ["recompile_invalid", 0, 1, True], ["recompile_invalid", 0, 1, True], ["call", 0, 3],
+                   ["recompile", 0, u1, True], ["recompile_invalid", 0, 0, True], ["recompile", 0, a, True], ["recompile", 0, b, True], ["call", 0, 0]]}
     named_plan, named_uid = _idx("def plan { splitters: uid"), _idx('def uid { salt: "u"')
     yield {"ops": [["new", both], ["call", 0, 0], ["new", named_plan], ["call", 1, 1], ["recompile", 0, named_uid], ["call", 0, 2], ["recompile", 1, both],
                    ["recompile", 1, named_plan], ["new", named_uid], ["call", 2, 0]]}
